@@ -94,7 +94,17 @@ def run_tex2txt(latex, o=None, multi=False, files=None, thresh=None, timeout=10,
         return orig_ml(toks, main_lang, parms)
     def parse(self, *a, **k):
         cap['parser'] = self
+        cap['init_ids'] = {id(v) for v in self.the_macros.values()}
         return orig_parse(self, *a, **k)
+    # how often is each macro expanded?  (a macro defined by the document itself that is expanded thousands of
+    # times in a short text calls itself or multiplies its arguments: outside the claim of C07)
+    orig_ea = m.parser.Parser.expand_arguments
+    cap['count'] = {}
+    def ea(self, buf, mac, start):
+        k = (mac.name, id(mac) not in cap.get('init_ids', ()))
+        cap['count'][k] = cap['count'].get(k, 0) + 1
+        return orig_ea(self, buf, mac, start)
+    m.parser.Parser.expand_arguments = ea
     orig_rpal = m.parser.Parser.remove_pure_action_lines
     cap['lines'] = []
     def rpal(self, tokens):
@@ -121,11 +131,15 @@ def run_tex2txt(latex, o=None, multi=False, files=None, thresh=None, timeout=10,
     finally:
         m.utils.get_txt_pos, m.utils.get_txt_pos_ml, m.parser.Parser.parse = orig_gtp, orig_ml, orig_parse
         m.parser.Parser.remove_pure_action_lines = orig_rpal
+        m.parser.Parser.expand_arguments = orig_ea
         if orig_open is None:
             del m.tex2txt.open
         else:
             m.tex2txt.open = orig_open
     res['toks'] = cap.get('toks')
+    if cap['count']:
+        (nm, docdef), cnt = max(cap['count'].items(), key=lambda kv: kv[1])
+        res['hot'] = (nm, docdef, cnt)
     p = cap.get('parser')
     res['unknowns'] = list(p.unknowns) if p is not None and hasattr(p, 'unknowns') else None
     res['lang_change'] = cap.get('lang_change')
